@@ -3,11 +3,13 @@ CONSTANTS MaxReq = 3
           Grants <- GrantsSmall
           MaxLeases = 2
           MaxClock = 4
-          MaxReconnects = 1
+          MaxReconnects = 0
           OvertakesHeld = FALSE
-          AppActsOnHeld = FALSE
+          AppActsOnHeld = TRUE
           QSize = 0
 INVARIANT TypeOK
+INVARIANT NothingOvertakesItsRequest
+INVARIANT BehindOnlyHeld
 INVARIANT NoRequestBeforeFirstLease
 INVARIANT CountWithinGrant
 INVARIANT NoneAfterTtl
